@@ -53,7 +53,7 @@ def main():
         # demonstration
         def run_demo():
             if demo.endswith('.sh'):
-                rc, o = sh(f'bash {demo}', cwd=wt)
+                rc, o = sh(f'bash {demo} {wt}', cwd=wt)
                 return rc == 0, o[-400:]
             text = open(demo).read()
             m = re.search(r'(src/[\w/]+\.rs)', text)
